@@ -97,6 +97,14 @@ func vC15Value(which int) (interface{}, map[string]string) {
 		v := &ZOuter{A: 1, In: ZInner{N: 2, S: "i"}, Z: 3}
 		_, nm := vExtract(v)
 		return v, nm
+	case 13: // a registered list type with more than 7 elements: the 'V' type int header is three writes of its own
+		v := []int32{1, 2, 3, 4, 5, 6, 7, 8, vInt32("e")}
+		_, nm := vExtract(v)
+		return v, nm
+	case 14: // a struct holding a registered named map, a long typed list of objects and a long untyped list
+		v := &ZTypedMix{Attrs: ZAttrs{"k": "v"}, L1: []int32{1, 2, 3, 4, 5, 6, 7, 8, 9}, L3: []string{"a", "b", "c", "d", "e", "f", "g", "h", "i"}}
+		_, nm := vExtract(v)
+		return v, nm
 	case 11: // timestamps: on their own path to the writer
 		v := &ZTimes{A: 1, T: time.Unix(int64(vInt32("x")), 5000000), Ts: []time.Time{time.Unix(7, 0), {}}}
 		_, nm := vExtract(v)
@@ -122,7 +130,7 @@ func vC15Value(which int) (interface{}, map[string]string) {
 // H_C15_fault: for every value, every index k of the k-th Write made while encoding it, and every fault
 // kind: if the fault fired, the encode call reports an error.
 func H_C15_fault() {
-	which := vChoice("value", 13)
+	which := vChoice("value", 15)
 	v, nm := vC15Value(which)
 	rich := vChoice("destination", 2) == 1 // a plain io.Writer, or one that offers WriteByte / WriteString too
 	// fault-free run: count the write events
